@@ -74,6 +74,7 @@ type mgCmd struct {
 	Name, FaceRole                  string
 	Cost, Origin, Flags             int
 	Strat, StratName, StratSuffix   string
+	StratBase                       string // badver: existing strategy with a version it does not have
 	Cap, Mtu                        string
 	FlagsMask                       string // faces/update: "", "both", "flags", "mask"
 	Short                           int    // 1: the name ends after /nfd, 2: after the module (no verb)
@@ -337,8 +338,12 @@ func mgmtExec(t *testing.T, w *traceWriter, conf mgConf, next func(e int) *mgCmd
 					args.Strategy = &mgmtdef.Strategy{Name: nm("/localhost/nfd/strategy")}
 				case "unknown":
 					args.Strategy = &mgmtdef.Strategy{Name: nm("/localhost/nfd/strategy/foo")}
-				case "badver":
-					args.Strategy = &mgmtdef.Strategy{Name: nm("/localhost/nfd/strategy/" + g.StratName + "/v=9")}
+				case "badver": // an existing strategy in a version it does not have
+					base := g.StratBase
+					if base == "" {
+						base = "multicast/v=9"
+					}
+					args.Strategy = &mgmtdef.Strategy{Name: nm("/localhost/nfd/strategy/" + base)}
 				case "alien":
 					args.Strategy = &mgmtdef.Strategy{Name: nm("/example/strategy/" + g.StratName)}
 				case "empty":
@@ -486,6 +491,7 @@ func mgRandom(rng *rand.Rand) *mgCmd {
 	case "cs":
 		g.HasName = false
 		g.Cap = pickS("0", "5", "100", "65535", "65536", "2147483648", "9223372036854775808", "18446744073709551615")
+		g.FlagsMask = pickS("", "", "", "both", "flags", "mask")
 	case "faces":
 		g.HasName = false
 		g.FaceRole = pickS("real0", "real1", "real0", "missing", "none")
@@ -514,6 +520,7 @@ func mgRandom(rng *rand.Rand) *mgCmd {
 			if g.Strat == "ok" {
 				g.StratSuffix = pickS("", "", "/v=1")
 			} else {
+				g.StratBase = g.StratName + pickS("/v=9", "/v=0", "/v=99", "/v=2")
 				g.StratName = ""
 			}
 		}
